@@ -64,3 +64,47 @@ def runt(rng, total):
     elif total == 7:
         b[5] = xor(b[:5])
     return bytes(b)
+
+
+def twin_headers(rng, deliverable=True):
+    """-> two (rcpt, sender, etype, ever) tuples that differ in exactly two (sometimes four) bytes by the SAME XOR delta, so
+    that frames of one kind and payload built with them are byte-identical from the kind byte on, the checksum included.
+    deliverable: recipient stays in {86, 0} and the sender in DEVICES on both sides."""
+    h = [rng.choice([86, 0]), rng.choice(DEVICES), rng.choice([48, 48, rng.randrange(256)]), rng.choice([5, 5, rng.randrange(256)])]
+    g = list(h)
+    mode = rng.choice(["sender/version", "sender/type", "recipient/type", "recipient/version", "recipient/sender",
+                       "type/version", "all-four"])
+    if mode in ("sender/version", "sender/type"):
+        g[1] = rng.choice([d for d in DEVICES if d != h[1]])
+        g[3 if mode == "sender/version" else 2] ^= h[1] ^ g[1]
+    elif mode in ("recipient/type", "recipient/version"):
+        g[0] = 86 - h[0]
+        g[2 if mode == "recipient/type" else 3] ^= 86
+    elif mode == "recipient/sender":
+        # 86 ^ 0 = 86: only the senders 86 <-> 0 pair with a recipient change
+        h[1] = rng.choice([86, 0])
+        g[1] = 86 - h[1]
+        g[0] = 86 - h[0]
+    elif mode == "type/version":
+        m = rng.randrange(1, 256)
+        g[2] ^= m
+        g[3] ^= m
+    else:
+        g[0] = 86 - h[0]
+        g[1] = rng.choice([d for d in DEVICES if d != h[1]])
+        m = rng.randrange(1, 256)
+        g[2] ^= m
+        g[3] ^= m ^ 86 ^ h[1] ^ g[1]
+    if not deliverable:
+        # the FIRST frame is one the reader does not deliver (foreign recipient or unknown sender), its twin is deliverable
+        h = list(g)
+        if rng.random() < 0.5:
+            d = rng.choice([1, 0x45, 0x57, 0xFF])
+            h[0] = g[0] ^ d
+            h[2] = g[2] ^ d
+        else:
+            d = rng.choice([1, 2, 0x80])
+            h[1] = g[1] ^ d
+            h[3] = g[3] ^ d
+    assert xor(h) == xor(g) and h != g
+    return mode, tuple(h), tuple(g)
